@@ -329,6 +329,12 @@ def gen_problem(rng, dom):
     for key in list(fluents):
         if rng.random() < 0.5:
             ngoals.append("(%s %s %s)" % (rng.choice([">=", "<=", ">", "<", "="]), key, rng.choice(NUMS)))
+            if rng.random() < 0.4:      # a second goal on the same fluent: other bound and/or other comparison
+                ngoals.append("(%s %s %s)" % (rng.choice([">=", "<=", ">", "<"]), key, rng.choice(NUMS)))
+    if len(fluents) >= 2 and rng.random() < 0.3:    # a goal comparing two fluents
+        a, b = rng.sample(sorted(fluents), 2)
+        ngoals.append("(%s %s (+ %s %s))" % (rng.choice([">=", "<="]), a, b, rng.choice(NUMS)))
+    ngoals = list(dict.fromkeys(ngoals))
     return {"name": "prob%d" % rng.randint(0, 99), "domain": dom["name"], "objs": objs, "facts": facts,
             "fluents": sorted(fluents.items()), "goals": goals, "ngoals": ngoals}
 
@@ -389,10 +395,19 @@ def render_problem(rng, prob, view=None, overrides=None):
         prob["name"], prob["domain"], otxt, " ".join(init), " ".join(goal))
 
 
-def inject_problem_conflict(rng, prob, views):
+def inject_problem_conflict(rng, prob, views, dom=None):
     n = len(views)
     if n < 2:
         return None
+    if dom is not None and rng.random() < 0.4:
+        # one file declares a shared object with a subtype of its type (still a legal argument everywhere)
+        shared = [(o, t, [i for i in range(n) if o in views[i]["objs"]]) for o, t in prob["objs"]]
+        shared = [(o, t, h) for o, t, h in shared if len(h) >= 2 and
+                  any(is_sub(dom["types"], s_, t) and s_ != t for s_, _ in dom["types"])]
+        if shared:
+            o, t, holders = rng.choice(shared)
+            sub_t = rng.choice([s_ for s_, _ in dom["types"] if is_sub(dom["types"], s_, t) and s_ != t])
+            return rng.choice(holders), {("objs", o): sub_t}, "object type"
     shared = [(key, [i for i in range(n) if any(k == key for k, _ in views[i]["fluents"])]) for key, _ in prob["fluents"]]
     shared = [(k, h) for k, h in shared if len(h) >= 2]
     if not shared:
@@ -435,7 +450,7 @@ def orders_for(rng, names, tier):
 
 
 def generated_directories(rng, tier):
-    ndirs = 150 if tier == "quick" else 1000
+    ndirs = 120 if tier == "quick" else 800
     for k in range(ndirs):
         dom = gen_domain(rng)
         n = rng.choice([1, 2, 2, 3, 3, 4])
@@ -448,7 +463,7 @@ def generated_directories(rng, tier):
             dfiles["domain-ag%d.pddl" % agents[i]] = render_domain(rng, dom, v, ov)
         prob = gen_problem(rng, dom)
         pviews = split_problem(rng, prob, n)
-        pconflict = inject_problem_conflict(rng, prob, pviews) if rng.random() < 0.2 else None
+        pconflict = inject_problem_conflict(rng, prob, pviews, dom) if rng.random() < 0.2 else None
         pfiles = {}
         for i, v in enumerate(pviews):
             ov = pconflict[1] if pconflict and pconflict[0] == i else None
@@ -511,9 +526,64 @@ def witness_directories():
                pfiles={"problem-x.pddl": pa.replace("problem wq", "problem one"), "problem-y.pddl": pb.replace("problem wq", "problem two")})
 
 
+TINY_DOMAIN = {
+    "name": "tiny", "reqs": [":typing"], "types": [("agent", "object"), ("a", "agent"), ("extra", "object")],
+    "consts": [("k", "a")], "preds": [("p", [("?x", "a")]), ("q", []), ("r", [("?x", "extra")])], "funcs": [("f", [])],
+    "actions": [{"name": "x", "params": [("?ag", "a")], "pre": ["(p ?ag)", "(>= (f) 1)"], "eff": ["(not (p ?ag))", "(increase (f) 1)"],
+                 "preds": ["p"], "funcs": ["f"], "consts": []},
+                {"name": "y", "params": [("?ag", "agent")], "pre": ["(q)"], "eff": ["(p k)"],
+                 "preds": ["p", "q"], "funcs": [], "consts": ["k"]}]}
+TINY_PROBLEM = {"name": "tinyp", "domain": "tiny", "objs": [("o1", "a"), ("o2", "a")], "facts": ["(p o1)", "(q)"],
+                "fluents": [("(f)", "1")], "goals": ["(p o2)", "(q)"], "ngoals": ["(>= (f) 2)"]}
+WHO = [(0,), (1,), (0, 1)]          # held by the first agent, the second, both
+OPT = [(), (0,), (1,), (0, 1)]      # ... or by nobody (items nothing else refers to)
+
+
+def exhaustive_directories(rng):
+    """small scope, enumerated completely: every way to give the two actions, the unused predicate, the constant and the
+    unused type of TINY_DOMAIN to two agents (3*3*4*4*4 = 576 domain splits) and every way to give the two facts, the
+    fluent value, the two goal literals and the numeric goal of TINY_PROBLEM to them (3^6 = 729 problem splits);
+    directory i carries problem split i and domain split i mod 576; each under both discovery orders"""
+    dsplits = list(itertools.product(WHO, WHO, OPT, OPT, OPT))
+    psplits = list(itertools.product(WHO, repeat=6))
+    for i, ps in enumerate(psplits):
+        ax, ay, pr, ck, te = dsplits[i % len(dsplits)]
+        views = [{"actions": set(), "preds": set(), "funcs": set(), "consts": set(), "types": set(), "reqs": [":typing"]}
+                 for _ in range(2)]
+        for who, sec, name in ((ax, "actions", "x"), (ay, "actions", "y"), (pr, "preds", "r"), (ck, "consts", "k"), (te, "types", "extra")):
+            for a in who:
+                views[a][sec].add(name)
+        for v in views:
+            close_view(TINY_DOMAIN, v)
+        pviews = [{"objs": set(), "facts": [], "fluents": [], "goals": [], "ngoals": []} for _ in range(2)]
+        items = [("facts", x) for x in TINY_PROBLEM["facts"]] + [("fluents", x) for x in TINY_PROBLEM["fluents"]] + \
+                [("goals", x) for x in TINY_PROBLEM["goals"]] + [("ngoals", x) for x in TINY_PROBLEM["ngoals"]]
+        for who, (sec, it) in zip(ps, items):
+            for a in who:
+                pviews[a][sec].append(it)
+        for v in pviews:
+            for sec in ("facts", "goals", "ngoals"):
+                for txt in v[sec]:
+                    v["objs"].update(mentioned(txt, ["o1", "o2"]))
+        whole_view = {"actions": set.union(*[v["actions"] for v in views]), "preds": set.union(*[v["preds"] for v in views]),
+                      "funcs": set.union(*[v["funcs"] for v in views]), "consts": set.union(*[v["consts"] for v in views]),
+                      "types": set.union(*[v["types"] for v in views]), "reqs": [":typing"]}
+        whole_p = {"objs": set.union(*[v["objs"] for v in pviews]), "facts": TINY_PROBLEM["facts"], "fluents": TINY_PROBLEM["fluents"],
+                   "goals": TINY_PROBLEM["goals"], "ngoals": TINY_PROBLEM["ngoals"]}
+        yield {"kind": "exhaustive", "case": "e%03d" % i,
+               "dfiles": {"domain-a%d.pddl" % (k + 1): render_domain(rng, TINY_DOMAIN, v) for k, v in enumerate(views)},
+               "pfiles": {"problem-a%d.pddl" % (k + 1): render_problem(rng, TINY_PROBLEM, v) for k, v in enumerate(pviews)},
+               "original_domain": render_domain(rng, TINY_DOMAIN, whole_view),
+               "original_problem": render_problem(rng, TINY_PROBLEM, whole_p),
+               "conflict": None, "pconflict": None, "others": other_domains(rng), "n": 2}
+
+
 def build_jobs(rng, tier):
     jobs = []
-    for d in list(witness_directories()) + list(fixture_directories()) + list(generated_directories(rng, tier)):
+    dirs = list(witness_directories()) + list(fixture_directories()) + list(generated_directories(rng, tier))
+    if tier == "thorough":
+        dirs += list(exhaustive_directories(rng))
+    for d in dirs:
         dnames, pnames = sorted(d["dfiles"]), sorted(d["pfiles"])
         orders = orders_for(rng, dnames if dnames else pnames,
                             {"fixture": "quick", "witness": "thorough"}.get(d["kind"], tier))
@@ -529,6 +599,8 @@ def build_jobs(rng, tier):
                 porder = list(pnames)
                 rng.shuffle(porder)
                 job["porder"] = porder
+            if d["kind"] == "exhaustive" and order is None:
+                continue        # both forced orders cover the real one
             jobs.append(job)
     return jobs
 
@@ -600,6 +672,28 @@ def nontrivial_maps(dumps, sections):
                 if (s, k) != ("types", "object"):
                     count[(s, k)] = count.get((s, k), 0) + 1
     return any(c >= 2 for c in count.values()) and any(c == 1 for c in count.values())
+
+
+def type_refs(text):
+    """type names an entry text mentions (the concrete reading used by C17_example_wellformed): the words after '-'
+    of a typed list, or every word of a type chain / type name"""
+    if "..#" in text:
+        return None
+    ws_ = text.replace("(", " ").replace(")", " ").split()
+    if "(" in text:
+        return [ws_[i + 1] for i in range(len(ws_) - 1) if ws_[i] == "-"]
+    return ws_
+
+
+def closed_dump(d):
+    """hypothesis of C17_wellformed_domains on a vocabulary dump, for the sections whose texts are never abbreviated"""
+    names = {k for k, _ in d["types"]}
+    for sec in ("types", "consts", "preds", "funcs"):
+        for _, v in d[sec]:
+            r = type_refs(v)
+            if r is None or any(x not in names for x in r):
+                return False
+    return True
 
 
 # ------------------------------------------------------------------------------------------------
@@ -705,17 +799,32 @@ def run(args):
     }
     sizes = [len(r["dobs"]["ok"][s]) for r in results if "ok" in r.get("dobs", {}) for s in ("types", "preds", "acts")]
     dist["combined_section_size_max"] = max(sizes) if sizes else 0
+    wf_all, wf_comb = 0, 0
+    for r in results:
+        if "ok" in r.get("dobs", {}) and r.get("dfiles") and all("ok" in f for f in r["dfiles"]):
+            if all(closed_dump(f["ok"]) for f in r["dfiles"]):
+                wf_all += 1
+                wf_comb += closed_dump(r["dobs"]["ok"])
+    dist["wellformedness"] = {"jobs_with_all_files_closed_under_type_references": wf_all,
+                              "of_which_the_combination_is_closed_too": wf_comb}
+    kinds = {}
+    for j in jobs:
+        kinds[j.get("kind")] = kinds.get(j.get("kind"), 0) + 1
+    dist["jobs_by_kind"] = kinds
     dist["order_independence_groups"] = order_groups
     dist["order_independence_pairs_compared"] = order_pairs
     cov["input_distribution"] = dist
-    cov["exhaustive"] = False
+    cov["exhaustive"] = False    # the small scope above is complete (thorough), the generated directories are a sample
     cov["rule"] = ("random typed domains (1-7 types in a forest, constants, 2-6 predicates, 0-3 functions, 1-6 actions with an agent "
                    "parameter, numeric conditions/effects) and problems (objects, facts, fluent values, goal literals, numeric goals) split "
                    "into 1-4 overlapping per-agent files (public/private parts, :private blocks, differing :requirements, shuffled "
-                   "sections); 20% of the directories carry one conflicting redefinition (predicate/constant/action/type, fluent value); "
+                   "sections); 20% of the directories carry one conflicting redefinition (predicate/constant/action/type; fluent value, object type); "
                    "every directory is combined under the file system's own discovery order and under forced orders (quick: 3, thorough: "
                    "all n! for n<=3, 12 of 24 for n=4; the problems get an independent order), dummy actions on in 35% of the jobs; the "
-                   "shipped multi-agent fixture directories are included.  Each job yields a domain case and a problem case.  Non-trivial: "
+                   "shipped multi-agent fixture directories and hand-made witness directories (repaired findings D18/D27, files that differ "
+                   "in :requirements / names) are included; thorough adds a small scope enumerated completely: all 576 ways to give the two "
+                   "actions, an unused predicate, a constant and an unused type of a tiny domain to two agents and all 729 ways to give two "
+                   "facts, a fluent value, two goal literals and a numeric goal to them, each under both orders.  Each job yields a domain case and a problem case.  Non-trivial: "
                    ">= 2 parsed files with a name shared by two files and a name private to one; distinct by input hash.")
     cov["samples"] = [{"files": {k: v for k, v in list(c["input"]["job"]["dfiles"].items())[:2]},
                        "order": c["input"]["implementation"].get("dorder"), "dummy": c["input"]["job"]["dummy"],
